@@ -444,9 +444,9 @@ class Unrecognised(Exception):
 class Contradiction(Exception):
     """A recognised construct contradicts the clause: reported as a finding by the rule that asked."""
 
-    def __init__(self, construct, what="", node=None):
+    def __init__(self, construct, what="", node=None, kind=None):
         super().__init__(construct)
-        self.construct, self.what, self.node = construct, what, node
+        self.construct, self.what, self.node, self.kind = construct, what, node, kind
 
 
 def norm_fn(ctx, modname, qual, keep=(), extra=(), public_methods=False, unroll=True, depth=3):
@@ -658,6 +658,12 @@ def _walk_facts(ctx):
     if not is_name(eff[prev], cur):
         raise Unrecognised("extract_border_cycle: the new value of the previous vertex is not recognised")
     if not isinstance(eff[cur], ast.Name):
+        picked = unordered_pick(S, eff[cur], blk[i0])
+        if picked is not None:
+            raise Contradiction("extract_border_cycle: the next vertex is taken from an unordered set of candidates",
+                                f"`{au.src(eff[cur])[:60]}` picks an arbitrary element of {picked}: a border vertex joined to another border vertex by an interior "
+                                "edge (ear triangle, thin strip) has more than one candidate and the walk may leave the border along that chord; the next "
+                                "vertex must be the first admissible one in the rotationally sorted neighbour list", blk[i0], kind="scan")
         raise Unrecognised("extract_border_cycle: the vertex the walk moves to is not a plain variable")
     y = eff[cur].id
     # ---- where does the chosen vertex come from
@@ -730,6 +736,35 @@ def _walk_facts(ctx):
     return F
 
 
+def is_set_expr(S, e, at, depth=0):
+    """a short description when e denotes a set (hash order), else None"""
+    if isinstance(e, ast.Name) and depth < 4:
+        v = S.value(e.id, at)
+        return is_set_expr(S, v, at, depth + 1) if v is not None else None
+    if isinstance(e, (ast.Set, ast.SetComp)):
+        return "a set display"
+    if isinstance(e, ast.Call):
+        t = au.call_tail(e)
+        if t in ("set", "frozenset"):
+            return f"{t}(...)"
+        if t in ("intersection", "difference", "union", "symmetric_difference") and isinstance(e.func, ast.Attribute):
+            return f"a set .{t}(...)"
+    if isinstance(e, ast.BinOp) and isinstance(e.op, (ast.BitAnd, ast.BitOr, ast.Sub, ast.BitXor)) and depth < 4:
+        return is_set_expr(S, e.left, at, depth + 1) or is_set_expr(S, e.right, at, depth + 1)
+    return None
+
+
+def unordered_pick(S, e, at):
+    """description of the set when e picks one element of a set: s.pop(), next(iter(s)), list(s)[k], min/max are ordered (None)"""
+    if isinstance(e, ast.Call) and au.call_tail(e) == "pop" and isinstance(e.func, ast.Attribute) and not e.args:
+        return is_set_expr(S, e.func.value, at)
+    if isinstance(e, ast.Call) and au.call_tail(e) == "next" and e.args and isinstance(e.args[0], ast.Call) and au.call_tail(e.args[0]) == "iter" and e.args[0].args:
+        return is_set_expr(S, e.args[0].args[0], at)
+    if isinstance(e, ast.Subscript) and isinstance(e.value, ast.Call) and au.call_tail(e.value) in ("list", "tuple") and e.value.args:
+        return is_set_expr(S, e.value.args[0], at)
+    return None
+
+
 def walk_first(F):
     """'head' | 'tail' | 'other' | None : which neighbour of the start the walk leaves through"""
     S, wl, cur, start = F["S"], F["wl"], F["cur"], F["start"]
@@ -746,6 +781,9 @@ def check_walk_orientation(ctx, rule, modname=None, fn=None):
     try:
         F = walk_facts(ctx)
     except Contradiction as c:
+        if c.kind == "scan":
+            ctx.fail(rule, ctx.site(BORD_MOD, fn0, c.node) if c.node is not None else ctx.site(BORD_MOD, fn0), c.construct, c.what)
+            return
         ctx.undecided(rule, ctx.site(BORD_MOD, fn0), "extract_border_cycle: skeleton of the walk broken (see the skeleton clause)",
                       "the orientation of the walk cannot be established: " + c.construct)
         return
